@@ -57,13 +57,8 @@ func newShardCal(tasks *[8]*ctask) *shardCal {
 
 // seamYield is the scheduling point of a backend call.
 func seamYield(tasks *[8]*ctask, i int) {
-	if i >= 0 && tasks[i] != nil {
-		t := tasks[i]
+	if t, g := gctxOfCaller(tasks); t != nil {
 		t.diskCalls++
-		g := t.caller
-		if t.uploadActive {
-			g = t.up
-		}
 		g.yield()
 	}
 }
@@ -231,6 +226,7 @@ func (s *shardCard) DeleteAddressObject(ctx context.Context, path string) error 
 
 // runDavTasks is runTasks for the CalDAV/CardDAV servers.
 func runDavTasks(plan *Plan, tasks []TaskPlan, log *Log) (*concResult, string) {
+	curReset()
 	var tarr [8]*ctask
 	slots := plan.Slots
 	if slots <= 0 {
@@ -328,6 +324,7 @@ func runDavTasks(plan *Plan, tasks []TaskPlan, log *Log) (*concResult, string) {
 }
 
 func runDavTask(tp *TaskPlan, t *ctask, cs *clientSet, tr *concTransport) {
+	curSet(t.idx, goid())
 	ctx := context.WithValue(context.Background(), taskKey{}, t)
 	g := t.caller
 	for i := range tp.Steps {
